@@ -202,6 +202,9 @@ def _history_case(draw, tier, names):
     steps.append(["full"])
     c["steps"] = steps
     c["fail_kind"] = draw(st.sampled_from(BOOM_KINDS))
+    # presorted=True histories: the harness keeps the sources sorted by the operator's key (re-sorting after every edit);
+    # nothing is sorted or cached then, so every pass reflects the sources, whatever `cache` says
+    c["presorted"] = e.has("presorted") and draw(st.integers(0, 3)) == 0
     return c
 
 
@@ -216,6 +219,17 @@ def check_history(case, ctx):
         kw["buffersize"] = bs
         kw["tempdir"] = ctx.tmpdir()
     hash_cached = hashop and cache   # a cached lookup replays the build side only: checked until the first completed pass
+    # (groupselectmin/max sort by the VALUE first, so their presorted argument cannot switch the sorting - and its cache - off)
+    presorted = bool(case.get("presorted")) and e.has("presorted") and e.name not in ("groupselectmin", "groupselectmax")
+
+    def resort(si):
+        rows[si][:] = [list(r) for r in R.ref_sort(rows[si], e.presort)]
+    if presorted:
+        for si in range(len(rows)):
+            resort(si)
+        kw = {"presorted": True, "cache": cache}
+        cache = False        # judged like cache=False: there is no sort whose result could be replayed
+        ctx.label("presorted")
     ctx.label("entry:" + e.name, "cache" if cache else "nocache", "bs:%s" % bs)
 
     def fresh():
@@ -265,6 +279,8 @@ def check_history(case, ctx):
                     for i, r in enumerate(data):
                         data[i] = list(r[:at]) + [name if i == 0 else newrow[i % len(newrow)]] + list(r[at:])
                     ctx.label("layout-edit")
+            if presorted:
+                resort(si)
             edited = True
             seen_edit = True
             continue
